@@ -35,9 +35,13 @@ namespace bloch::compiler {
         while (m_position < m_source.size()) {
             skipWhitespace();
             if (m_position < m_source.size()) {
+                m_tokenLine = m_line;
+                m_tokenColumn = m_column;
                 tokens.push_back(scanToken());
             }
         }
+        m_tokenLine = m_line;
+        m_tokenColumn = m_column;
         tokens.push_back(makeToken(TokenType::Eof, ""));
         return tokens;
     }
@@ -99,8 +103,9 @@ namespace bloch::compiler {
     }
 
     Token Lexer::makeToken(TokenType type, const std::string& value) {
-        // Column is adjusted so error spans point to token start.
-        return Token{type, value, m_line, m_column - static_cast<int>(value.length())};
+        // Tokens carry the position of their first character (a string or char literal may
+        // contain newlines, so it cannot be derived from the end position and the length).
+        return Token{type, value, m_tokenLine, m_tokenColumn};
     }
 
     Token Lexer::scanToken() {
@@ -308,9 +313,12 @@ namespace bloch::compiler {
         // Strings are double-quoted and may span lines; we do not process escapes yet.
         size_t start = m_position;
         while (m_position < m_source.size() && peek() != '"') {
-            if (peek() == '\n')
-                m_line++;
+            bool newline = peek() == '\n';
             (void)advance();
+            if (newline) {
+                m_line++;
+                m_column = 1;
+            }
         }
 
         if (peek() == '"') {
@@ -327,8 +335,14 @@ namespace bloch::compiler {
     Token Lexer::scanChar() {
         // Char literals are simple: '\'' X '\'' with no escaping support for now.
         size_t start = m_position;
-        if (m_position < m_source.size())
+        if (m_position < m_source.size()) {
+            bool newline = peek() == '\n';
             (void)advance();
+            if (newline) {
+                m_line++;
+                m_column = 1;
+            }
+        }
 
         if (peek() == '\'') {
             (void)advance();
